@@ -608,6 +608,32 @@ func (fv *FV) evalCall(e *Expr, env *Env) Val {
 		return Val{T: fmt.Sprintf("(lib_type (ityp %s))", x.T), S: "Bool"}
 	case "fnid":
 		return Val{T: fmt.Sprintf("(fn_of %s)", fv.asTermSpec(env, arg(0)).T), S: "Int"}
+	case "thisfn":
+		// the function under verification, as a function value
+		return fv.funcVal(fv.fn)
+	case "fnconst":
+		// fnconst("name", f): a per-function constant; its value is known (from the fnconst table)
+		// only for the function under verification, otherwise it is an unconstrained function of f
+		name := e.Args[0].Name
+		tbl, ok := fv.u.db.FnConsts[name]
+		if !ok {
+			fv.specErr("fnconst: no table %q", name)
+		}
+		sym := "fnc_" + name
+		if d := fmt.Sprintf("(declare-fun %s (Int) Int)", sym); !fv.declS[d] {
+			fv.declS[d] = true
+			fv.decls = append(fv.decls, d)
+		}
+		if fv.fn.Pkg != nil {
+			if v, ok := tbl[fv.fn.Pkg.Pkg.Name()+"."+fv.fn.Name()]; ok {
+				ax := fmt.Sprintf("(assert (= (%s (fn_of %s)) %d))", sym, fv.funcVal(fv.fn).T, v)
+				if !fv.declS[ax] {
+					fv.declS[ax] = true
+					fv.decls = append(fv.decls, ax)
+				}
+			}
+		}
+		return Val{T: fmt.Sprintf("(%s (fn_of %s))", sym, fv.asTermSpec(env, arg(1)).T), S: "Int"}
 	case "fnidOf":
 		// fnidOf("GEN.begin") / fnidOf("parquet.RepetitionRequired")
 		name := e.Args[0].Name
